@@ -14,6 +14,7 @@ import (
 	"sort"
 	"strings"
 	"sync"
+	"sync/atomic"
 	"testing"
 	"time"
 
@@ -132,11 +133,27 @@ type c27Config struct {
 	Routes  []int  `json:"routes"`  // per partition (topic-major): 0 unknown, 1 owner A, 2 owner B, 3 owner with a dead address
 	RR      uint32 `json:"rr"`      // initial round-robin counter of the proxy
 	Unknown bool   `json:"unknown"` // fetch by id: the proxy cannot resolve the topic ids to names
+	// Mask (sessions only): when non-zero the request names only the partitions whose topic-major
+	// index bit is set; Topics x Parts / Routes then describe the world shared by the session.
+	Mask int `json:"mask,omitempty"`
+	// step (sessions only, 1-based; 0 = single-request case): position of the request in its
+	// client session. It is part of the produce record bytes and of the correlation id.
+	step int
+}
+
+// c27Step is one client request of a session (see zz_verif_c27_session_test.go).
+type c27Step struct {
+	Kind string `json:"kind"`
+	Mask int    `json:"mask"`
 }
 
 type c27Case struct {
 	Config c27Config         `json:"config"`
 	Script map[string]c27Beh `json:"script"` // slot ("A0" = first request seen by backend A) -> behaviour; absent = ok
+	// Steps, when present, makes the case a session: Config is the world (shape, routing table,
+	// round-robin phase) and the requests are sent one after the other on ONE client connection
+	// served by proxy.handleConnection; slots count a backend's requests over the whole session.
+	Steps []c27Step `json:"steps,omitempty"`
 }
 
 func (c c27Config) isProduce() bool { return strings.HasPrefix(c.Kind, "produce") }
@@ -154,12 +171,24 @@ func (c c27Config) acks() int16 {
 func (c c27Config) byID() bool { return strings.HasPrefix(c.Kind, "fetch-id") }
 func (c c27Config) tps() []c27TP {
 	var out []c27TP
+	i := 0
 	for t := 0; t < c.Topics; t++ {
 		for p := 0; p < c.Parts; p++ {
-			out = append(out, c27TP{t, int32(p)})
+			if c.Mask == 0 || c.Mask&(1<<i) != 0 {
+				out = append(out, c27TP{t, int32(p)})
+			}
+			i++
 		}
 	}
 	return out
+}
+func (c c27Config) requested(tp c27TP) bool {
+	for _, x := range c.tps() {
+		if x == tp {
+			return true
+		}
+	}
+	return false
 }
 
 func c27TopicName(t int) string { return fmt.Sprintf("topic-%d", t) }
@@ -173,6 +202,15 @@ func c27TopicID(t int) [16]byte {
 }
 func c27Records(tp c27TP) []byte { return []byte(fmt.Sprintf("records-of-%s", tp)) }
 
+// c27RecordsOf: the record bytes the client sends for tp in the request described by cfg; in a
+// session they name the request, so that a backend can tell which client request it is writing.
+func c27RecordsOf(cfg c27Config, tp c27TP) []byte {
+	if cfg.step == 0 {
+		return c27Records(tp)
+	}
+	return []byte(fmt.Sprintf("records-of-%s-in-request-%d", tp, cfg.step))
+}
+
 // ---------------------------------------------------------------- fake Kafka backends
 
 type c27Arrival struct {
@@ -185,6 +223,9 @@ type c27Arrival struct {
 	Replied   bool    // a well-formed reply was written
 	Answer    map[c27TP]int16
 	Corrupt   string // set when a produce partition's record bytes differ from what the client sent
+	Stale     string // set when a produce partition carried the record bytes of an EARLIER request of the session
+	Step      int    // session: the client request (1-based) that was in flight when this arrived
+	Reused    bool   // the backend connection had already carried an earlier request
 }
 
 type c27World struct {
@@ -252,7 +293,7 @@ func (w *c27World) serve(b int, c net.Conn, gen int) {
 		w.mu.Unlock()
 		w.wg.Done()
 	}()
-	for {
+	for served := 0; ; served++ {
 		var lenBuf [4]byte
 		if _, err := io.ReadFull(c, lenBuf[:]); err != nil {
 			c.Close()
@@ -272,9 +313,9 @@ func (w *c27World) serve(b int, c net.Conn, gen int) {
 		if !ok {
 			beh = c27Beh{Kind: "ok"}
 		}
-		ar := &c27Arrival{Seq: len(w.arrivals), Backend: b, Slot: slot, Beh: beh, Answer: map[c27TP]int16{}}
-		w.arrivals = append(w.arrivals, ar)
 		cfg := w.cfg
+		ar := &c27Arrival{Seq: len(w.arrivals), Backend: b, Slot: slot, Beh: beh, Answer: map[c27TP]int16{}, Step: cfg.step, Reused: served > 0}
+		w.arrivals = append(w.arrivals, ar)
 		w.mu.Unlock()
 
 		if beh.Kind == "closeBefore" {
@@ -312,6 +353,12 @@ func (w *c27World) serve(b int, c net.Conn, gen int) {
 		ar.Replied = true
 		w.mu.Unlock()
 		if err := protocol.WriteFrame(c, reply); err != nil {
+			c.Close()
+			return
+		}
+		if beh.Kind == "okClose" {
+			// the request was answered; the connection then goes away while it sits idle in the
+			// client session's pool (orderly close: the reply already written is still delivered)
 			c.Close()
 			return
 		}
@@ -389,8 +436,16 @@ func (w *c27World) process(cfg c27Config, ar *c27Arrival, header *protocol.Reque
 			for _, p := range t.Partitions {
 				tp := c27TP{ti, p.Partition}
 				parts = append(parts, tp)
-				if string(p.Records) != string(c27Records(tp)) {
+				if string(p.Records) != string(c27RecordsOf(cfg, tp)) {
 					ar.Corrupt = fmt.Sprintf("%s carried records %q", tp, p.Records)
+					for s := 1; s < cfg.step; s++ {
+						old := cfg
+						old.step = s
+						if string(p.Records) == string(c27RecordsOf(old, tp)) {
+							ar.Stale = fmt.Sprintf("%s carried the records of request #%d again while request #%d was being served", tp, s, cfg.step)
+							ar.Corrupt = ""
+						}
+					}
 				}
 				rp := kmsg.NewProduceResponseTopicPartition()
 				rp.Partition = p.Partition
@@ -586,14 +641,19 @@ func c27BuildPayload(cfg c27Config) []byte {
 			rt := kmsg.NewProduceRequestTopic()
 			rt.Topic = c27TopicName(t)
 			for p := 0; p < cfg.Parts; p++ {
+				if !cfg.requested(c27TP{t, int32(p)}) {
+					continue
+				}
 				rp := kmsg.NewProduceRequestTopicPartition()
 				rp.Partition = int32(p)
-				rp.Records = c27Records(c27TP{t, int32(p)})
+				rp.Records = c27RecordsOf(cfg, c27TP{t, int32(p)})
 				rt.Partitions = append(rt.Partitions, rp)
 			}
-			req.Topics = append(req.Topics, rt)
+			if len(rt.Partitions) > 0 {
+				req.Topics = append(req.Topics, rt)
+			}
 		}
-		return f.AppendRequest(nil, req, 7001)[4:]
+		return f.AppendRequest(nil, req, int32(7001+10*cfg.step))[4:]
 	}
 	req := kmsg.NewPtrFetchRequest()
 	req.SetVersion(v)
@@ -609,15 +669,20 @@ func c27BuildPayload(cfg c27Config) []byte {
 			rt.Topic = c27TopicName(t)
 		}
 		for p := 0; p < cfg.Parts; p++ {
+			if !cfg.requested(c27TP{t, int32(p)}) {
+				continue
+			}
 			rp := kmsg.NewFetchRequestTopicPartition()
 			rp.Partition = int32(p)
 			rp.FetchOffset = 0
 			rp.PartitionMaxBytes = 1 << 20
 			rt.Partitions = append(rt.Partitions, rp)
 		}
-		req.Topics = append(req.Topics, rt)
+		if len(rt.Partitions) > 0 {
+			req.Topics = append(req.Topics, rt)
+		}
 	}
-	return f.AppendRequest(nil, req, 7002)[4:]
+	return f.AppendRequest(nil, req, int32(7002+10*cfg.step))[4:]
 }
 
 func (k *c27Worker) run(c c27Case) (out c27Outcome) {
@@ -663,7 +728,17 @@ func (k *c27Worker) run(c c27Case) (out c27Outcome) {
 		out.Err = "no reply"
 		return
 	}
+	c27DecodeReply(cfg, resp, &out)
+	return
+}
+
+// c27DecodeReply decodes the bytes the client received for the request described by cfg into
+// out.Reply / out.Extra (or out.Err).
+func c27DecodeReply(cfg c27Config, resp []byte, out *c27Outcome) {
 	v := cfg.version()
+	if len(resp) < 5 {
+		resp = append(append([]byte(nil), resp...), make([]byte, 5-len(resp))...) // too short: decoding fails below
+	}
 	if cfg.isProduce() {
 		r := kmsg.NewPtrProduceResponse()
 		r.SetVersion(v)
@@ -683,7 +758,7 @@ func (k *c27Worker) run(c c27Case) (out c27Outcome) {
 				}
 			}
 			for _, pp := range t.Partitions {
-				if ti < 0 || pp.Partition < 0 || int(pp.Partition) >= cfg.Parts {
+				if ti < 0 || !cfg.requested(c27TP{ti, pp.Partition}) {
 					out.Extra = append(out.Extra, fmt.Sprintf("%q/%d", t.Topic, pp.Partition))
 					continue
 				}
@@ -711,7 +786,7 @@ func (k *c27Worker) run(c c27Case) (out c27Outcome) {
 			}
 		}
 		for _, pp := range t.Partitions {
-			if ti < 0 || pp.Partition < 0 || int(pp.Partition) >= cfg.Parts {
+			if ti < 0 || !cfg.requested(c27TP{ti, pp.Partition}) {
 				out.Extra = append(out.Extra, fmt.Sprintf("%q/%x/%d", t.Topic, t.TopicID, pp.Partition))
 				continue
 			}
@@ -719,7 +794,6 @@ func (k *c27Worker) run(c c27Case) (out c27Outcome) {
 			out.Reply[tp] = append(out.Reply[tp], pp.ErrorCode)
 		}
 	}
-	return
 }
 
 // ---------------------------------------------------------------- oracle
@@ -756,6 +830,8 @@ func c27BehKey(kind string) string {
 		return "garbage-reply"
 	case "omit":
 		return "incomplete-reply"
+	case "okClose":
+		return "success"
 	}
 	return kind
 }
@@ -814,9 +890,20 @@ func c27Check(cfg c27Config, o c27Outcome) []c27Viol {
 				if prev.Replied && has && code == c27NotLeader {
 					continue
 				}
-				vs = append(vs, c27Viol{"produce-resent-after-" + c27BehKey(prev.Beh.Kind),
+				key := "produce-resent-after-" + c27BehKey(prev.Beh.Kind)
+				if prev.Reused {
+					// the previous receiver got it on a backend connection taken from the session's pool
+					key += "-on-reused-connection"
+				}
+				vs = append(vs, c27Viol{key,
 					fmt.Sprintf("records of %s were received by backend request %s although the previous receiver %s did not reject the partition as not leader (it did: %s)", tp, rs[i].Slot, prev.Slot, prev.Beh)})
 				break
+			}
+			for _, a := range rs {
+				if a.Stale != "" {
+					vs = append(vs, c27Viol{"produce-of-earlier-request-written-again", a.Stale})
+					break
+				}
 			}
 			for _, a := range rs {
 				if a.Corrupt != "" {
@@ -959,6 +1046,19 @@ func c27Configs(thorough bool) []c27Config {
 // non-success behaviours. Stateless DFS: a run with the current prefix discovers the slots that
 // are consumed after it (defaulting to "ok"); the last choice is then advanced.
 func c27Explore(k *c27Worker, cfg c27Config, maxFaults int, thorough bool, deadline time.Time, visit func(c c27Case, o c27Outcome)) (capped bool) {
+	return c27ExploreScripts(maxFaults, deadline,
+		func(a *c27Arrival) []c27Beh { return c27Options(a.Parts, thorough) },
+		func(script map[string]c27Beh) []*c27Arrival {
+			c := c27Case{Config: cfg, Script: script}
+			o := k.run(c)
+			visit(c, o)
+			return o.Arrivals
+		})
+}
+
+// c27ExploreScripts is the search itself: exec runs one script and returns the backends' request
+// log (in arrival order); opts gives the behaviours open to a newly discovered slot.
+func c27ExploreScripts(maxFaults int, deadline time.Time, opts func(a *c27Arrival) []c27Beh, exec func(script map[string]c27Beh) []*c27Arrival) (capped bool) {
 	var stack []c27Choice
 	for {
 		script := map[string]c27Beh{}
@@ -967,15 +1067,13 @@ func c27Explore(k *c27Worker, cfg c27Config, maxFaults int, thorough bool, deadl
 				script[ch.Slot] = ch.Opts[ch.Opt]
 			}
 		}
-		c := c27Case{Config: cfg, Script: script}
-		o := k.run(c)
-		visit(c, o)
+		arrivals := exec(script)
 		// newly discovered slots, in arrival order
 		known := map[string]bool{}
 		for _, ch := range stack {
 			known[ch.Slot] = true
 		}
-		for _, a := range o.Arrivals {
+		for _, a := range arrivals {
 			if known[a.Slot] {
 				continue
 			}
@@ -983,7 +1081,7 @@ func c27Explore(k *c27Worker, cfg c27Config, maxFaults int, thorough bool, deadl
 				continue // cannot happen for a default ("ok") slot; guards against rig anomalies
 			}
 			known[a.Slot] = true
-			stack = append(stack, c27Choice{Slot: a.Slot, Opt: 0, Opts: c27Options(a.Parts, thorough)})
+			stack = append(stack, c27Choice{Slot: a.Slot, Opt: 0, Opts: opts(a)})
 		}
 		// advance
 		for {
@@ -1012,12 +1110,13 @@ func c27Explore(k *c27Worker, cfg c27Config, maxFaults int, thorough bool, deadl
 func TestVerifC27(t *testing.T) {
 	rep := vh.New(t, "C27")
 	defer rep.Finish()
-	rep.Rule = "case = request kind (produce v9 acks=1, produce v7 acks=-1, fetch by name v11, fetch by topic id v13 resolvable / unresolvable) x shape (1-2 topics x 1-2 partitions) x routing table entry per partition (unknown | owner A | owner B) x initial round-robin phase x behaviour of each backend on each request it receives (ok | NOT_LEADER for every non-empty subset of the partitions in that request | other error code | close before reading | close after reading | undecodable reply | well-formed reply without partitions), all scripts with <= F non-ok behaviours by depth-first search over the requests actually received; run on the real proxy struct against 2 loopback TCP backends. distinct = configuration + per-backend request log + reply codes; non-trivial = >=1 non-ok behaviour was consumed."
+	rep.Rule = "case = request kind (produce v9 acks=1, produce v7 acks=-1, fetch by name v11, fetch by topic id v13 resolvable / unresolvable) x shape (1-2 topics x 1-2 partitions) x routing table entry per partition (unknown | owner A | owner B) x initial round-robin phase x behaviour of each backend on each request it receives (ok | NOT_LEADER for every non-empty subset of the partitions in that request | other error code | close before reading | close after reading | undecodable reply | well-formed reply without partitions), all scripts with <= F non-ok behaviours by depth-first search over the requests actually received; run on the real proxy struct against 2 loopback TCP backends. distinct = configuration + per-backend request log + reply codes; non-trivial = >=1 non-ok behaviour was consumed. SESSIONS: in addition every sequence of 2 (thorough also 3) requests (produce v9 acks=1 | fetch v11, each naming a non-empty subset of the partitions of a 1 topic x 2 partition world) sent one after the other on ONE client connection through the real proxy.handleConnection (one connPool: later requests reuse the backend connections of earlier ones) x routing table x round-robin phase x all scripts with <= F non-ok behaviours over the slots consumed during the whole session, behaviours as above plus 'answer ok, then close the now pooled connection'; every request of the session is judged by the same oracle over the backend arrivals that happened while it was in flight (produce record bytes name their request)."
 	rep.Assumptions = []string{
 		"a backend that closes before reading the request body has not processed (appended) it; one that read the body has",
 		"the routing table is a real metadata.PartitionRouter loaded from a fake etcd KV whose watch never fires: it only changes through the proxy's own Invalidate",
 		"a 'malformed reply' is either undecodable bytes or a well-formed response that omits the requested partitions",
 		"acks=0 produce (no reply at all) is outside the statement",
+		"sessions: the client sends the next request only after it has read the reply to the previous one (no pipelining), so every backend arrival belongs to exactly one client request; the client side of the session is an in-memory net.Pipe, the backend side loopback TCP",
 		"the fan-out iterates a Go map: when an unknown-owner group coexists with owned groups, which backend the round-robin group lands on depends on map iteration order, which cannot be controlled; every script is run under the order that occurred (the oracle does not depend on it)",
 	}
 	thorough := vh.Thorough()
@@ -1031,6 +1130,17 @@ func TestVerifC27(t *testing.T) {
 	if ok, err := vh.LoadReplay(&replay); ok {
 		if err != nil {
 			t.Fatalf("HARNESS-ERROR replay: %v", err)
+		}
+		if len(replay.Steps) > 0 {
+			so := k0.runSession(replay)
+			rep.Eval(1)
+			sig, nt := c27SessionSignature(replay, so)
+			rep.Outcome(sig, nt)
+			rep.Sample(map[string]any{"case": replay, "log": c27SessionLogStrings(so), "reply": c27SessionReplyStrings(replay, so)})
+			for _, v := range c27CheckSession(replay, so) {
+				rep.Violation(v.key, v.detail+" | log: "+strings.Join(c27SessionLogStrings(so), " ; "), replay)
+			}
+			return
 		}
 		o := k0.run(replay)
 		rep.Eval(1)
@@ -1069,9 +1179,13 @@ func TestVerifC27(t *testing.T) {
 	shard, nshards := vh.Shard()
 
 	type job struct {
-		idx int
-		cfg c27Config
+		idx   int
+		cfg   c27Config
+		steps []c27Step // non-nil: a session (cfg is the world)
 	}
+	sessions := c27Sessions(thorough)
+	rep.SetInfo("sessions", len(sessions))
+	rep.SetInfo("session_bounds", c27SessionBounds(thorough))
 	jobs := make(chan job, 64)
 	go func() {
 		defer close(jobs)
@@ -1079,7 +1193,13 @@ func TestVerifC27(t *testing.T) {
 			if i%nshards != shard {
 				continue
 			}
-			jobs <- job{i, c}
+			jobs <- job{i, c, nil}
+		}
+		for i, sc := range sessions {
+			if i%nshards != shard {
+				continue
+			}
+			jobs <- job{len(cfgs) + i, sc.Config, sc.Steps}
 		}
 	}()
 	// violations are reported smallest script first (fewest injected behaviours, then simplest
@@ -1130,6 +1250,7 @@ func TestVerifC27(t *testing.T) {
 	var wg sync.WaitGroup
 	var capOnce sync.Once
 	var anomalyOnce sync.Once
+	var singleSamples int32 // the last sample places are left to the session cases
 	for wi := 0; wi < workers; wi++ {
 		wg.Add(1)
 		go func() {
@@ -1142,6 +1263,17 @@ func TestVerifC27(t *testing.T) {
 			defer k.close()
 			for j := range jobs {
 				cfg, cfgIdx := j.cfg, j.idx
+				if j.steps != nil {
+					capped := c27ExploreSession(k, rep, c27Case{Config: cfg, Steps: j.steps}, thorough, deadline, &anomalyOnce,
+						func(key string, size int, detail string, c c27Case) { record(key, found{size, cfgIdx, detail, c}) })
+					if capped {
+						capOnce.Do(func() { rep.Cap("deadline reached before all configurations were explored") })
+						for range jobs {
+						}
+						return
+					}
+					continue
+				}
 				var runs, faulty int64
 				sigs := map[string]bool{}
 				capped := c27Explore(k, cfg, faults(cfg), thorough, deadline, func(c c27Case, o c27Outcome) {
@@ -1182,7 +1314,7 @@ func TestVerifC27(t *testing.T) {
 					for _, v := range c27Check(cfg, o) {
 						record(v.key, found{len(c.Script), cfgIdx, v.detail + " | log: " + strings.Join(c27LogStrings(o), " ; ") + " | reply: " + strings.Join(c27ReplyStrings(cfg, o), " "), c})
 					}
-					if nt && len(o.Arrivals) >= 3 && len(c.Script) >= 2 && rep.WantSample() {
+					if nt && len(o.Arrivals) >= 3 && len(c.Script) >= 2 && atomic.LoadInt32(&singleSamples) < 4 && atomic.AddInt32(&singleSamples, 1) <= 4 {
 						rep.Sample(map[string]any{"case": c, "log": c27LogStrings(o), "reply": c27ReplyStrings(cfg, o)})
 					}
 				})
